@@ -371,6 +371,9 @@ fn rand_k(rng: &mut Rng, n: usize) -> usize {
 /// a random policy with at most `budget` nodes
 fn rand_pol(rng: &mut Rng, budget: usize, atoms: &[P], concrete: bool) -> P {
     if budget <= 1 || rng.below(8) == 0 {
+        if concrete && rng.below(12) == 0 {
+            return if rng.below(2) == 0 { P::And(vec![]) } else { P::Or(vec![]) };
+        }
         return rand_leaf(rng, atoms);
     }
     let n = 1 + rng.below(((budget - 1).min(5)) as u64) as usize;
@@ -482,7 +485,7 @@ fn corpus() -> Vec<Input> {
     let locks = vec![(0, 99), (0, 100), (1, 500_000_100)];
     let sem = |p: P| Input::Sem(p, ages.clone(), locks.clone());
     vec![
-        // DESIGN 10-j: entails matches the un-normalized arguments first
+        // DESIGN 10-j (repaired, 51c85bfb): entails on un-normalized arguments
         Input::Ent(T, Th(1, vec![T, Key(0)])),
         Input::Ent(Th(2, vec![U, Key(0)]), U),
         Input::Ent(Th(2, vec![U, Key(0)]), Key(1)),
@@ -502,13 +505,21 @@ fn corpus() -> Vec<Input> {
         sem(Th(2, vec![Th(1, vec![Key(0), Older(5)]), T, After(100)])),
         sem(Th(3, vec![Th(2, vec![Key(0), Key(1)]), T, U, Older(4194309)])),
         sem(Th(1, vec![Th(1, vec![Th(1, vec![Key(0)])])])),
-        // DESIGN 10-e: And lifts with a hard-coded threshold 2
+        // DESIGN 10-e (repaired, 780a529d): And / Or of any arity
         Input::Conc(And(vec![Key(0), Key(1), Key(2)])),
         Input::Conc(And(vec![Key(0)])),
         Input::Conc(And(vec![Key(0), Key(1)])),
         Input::Conc(Or(vec![Key(0)])),
-        // DESIGN 10-k: the mixed time-lock check is syntactic
+        Input::Conc(And(vec![])),
+        Input::Conc(Or(vec![])),
+        Input::Conc(Th(2, vec![And(vec![]), Or(vec![]), Key(0)])),
+        // lift re-runs check_timelocks inside unsatisfiable branches
+        Input::Conc(And(vec![And(vec![After(1), After(500_000_001)]), U])),
+        Input::Conc(Or(vec![Key(0), And(vec![And(vec![After(1), After(500_000_001)]), U])])),
+        // DESIGN 10-k (repaired, b588aa3a): unsatisfiable branches are ignored by the mixed time-lock check
         Input::Conc(And(vec![After(1), And(vec![After(500_000_001), U])])),
+        Input::Conc(Th(2, vec![After(1), After(500_000_001), U])),
+        Input::Conc(Th(3, vec![After(1), After(500_000_001), U])),
         Input::Conc(And(vec![After(1), After(500_000_001)])),
         Input::Conc(Or(vec![After(1), After(500_000_001)])),
         Input::Conc(Th(2, vec![After(1), After(500_000_001), Key(0)])),
@@ -544,7 +555,9 @@ pub fn generate(seed: u64, thorough: bool) -> Vec<Input> {
         }
     }
     // C1: every concrete policy with at most N nodes (And/Or of any arity up to 3)
-    let cleaves = [U, T, Key(0), Older(5), Older(4194309), After(100), After(500_000_001)];
+    // And([]) / Or([]) (constructible through the public enum) count as leaves here
+    let cleaves =
+        [U, T, Key(0), Older(5), Older(4194309), After(100), After(500_000_001), And(vec![]), Or(vec![])];
     for c in exhaustive(4, &cleaves, true, 3) {
         cases.push(Input::Conc(c));
     }
